@@ -7,6 +7,8 @@
 -/
 import RotoV.Model.ListConc
 
+set_option linter.unusedSimpArgs false
+
 namespace RotoV.ListConc
 
 @[simp] theorem upd_same {α : Type} (f : Nat → α) (i : Nat) (v : α) : upd f i v i = v := by
@@ -30,7 +32,7 @@ def OpPc (cells : Nat → Cell) (t : Nat) (ptr : Option Ptr) : Op → Nat → Pr
   | _, 0 => True
   | .get l i, 1 => Held cells t ptr l i
   | .ffiGet l i, 1 => Held cells t ptr l i
-  | .eq a b, 1 => a ≠ b ∧ (cells a).owner = some t
+  | .eq a b, 1 => a ≠ b ∧ (cells (eqFirst Facts.guarded a b)).owner = some t
   | .concat a _, 1 => (cells a).owner = some t
   | .concat _ _, 2 => True
   | _, _ => False
@@ -93,7 +95,7 @@ theorem opPc_frame {u t : Nat} {c c' : Nat → Cell} {ptr : Option Ptr} (hf : Fr
   | _, 0, _ => simp [OpPc]
   | .get l i, 1, h => exact held_frame hf ht h
   | .ffiGet l i, 1, h => exact held_frame hf ht h
-  | .eq a b, 1, h => exact ⟨h.1, (hf a t ht h.2).1⟩
+  | .eq a b, 1, h => exact ⟨h.1, (hf _ t ht h.2).1⟩
   | .concat a _, 1, h => exact (hf a t ht h).1
   | .concat _ _, 2, _ => simp [OpPc]
 
@@ -580,5 +582,503 @@ theorem run_append {F : Facts} : ∀ (pre post : List Nat) (s : State),
     split
     · simp
     · rename_i s1 _; exact ih post s1
+
+/-! ### who owns which mutex (for deadlock freedom) -/
+
+/-- the mutex thread `t` holds when it stands at step `pc` of `op` -/
+def HoldsOp : Op → Nat → Nat → Prop
+  | .get l' _, 1, l => l' = l
+  | .ffiGet l' _, 1, l => l' = l
+  | .eq a b, 1, l => a ≠ b ∧ eqFirst Facts.guarded a b = l
+  | .concat a _, 1, l => a = l
+  | _, _, _ => False
+
+theorem owner_setOwner (c : Nat → Cell) (x : Nat) (o : Option Nat) (l : Nat) :
+    (setOwner c x o l).owner = if l = x then o else (c l).owner := by
+  by_cases h : l = x
+  · subst h; simp [setOwner]
+  · simp [setOwner, h]
+
+theorem owner_setRaw (c : Nat → Cell) (x : Nat) (r : RawList) (l : Nat) :
+    (setRaw c x r l).owner = (c l).owner := by
+  by_cases h : l = x
+  · subst h; simp [setRaw]
+  · simp [setRaw, h]
+
+theorem owner_rc (c : Nat → Cell) (x n l : Nat) :
+    (upd c x { c x with rc := n } l).owner = (c l).owner := by
+  by_cases h : l = x
+  · subst h; simp
+  · simp [h]
+
+/-- after a step of `t`: every mutex is held by whom it was held before (not
+    `t`), or by `t` at its next position -/
+def OwnerOK (t : Nat) (cells : Nat → Cell) (op : Op) (pc : Nat) (o : StepOut) : Prop :=
+  ∀ l u, (o.cells l).owner = some u →
+    (u ≠ t ∧ (cells l).owner = some u) ∨ (u = t ∧ o.next = .cont ∧ HoldsOp op (pc + 1) l)
+
+/-- the cells did not change owners and `t` holds nothing -/
+theorem ownerOK_same {t : Nat} {cells cells' : Nat → Cell} {op : Op} {pc : Nat} {o : StepOut}
+    (hc : o.cells = cells') (hsame : ∀ l, (cells' l).owner = (cells l).owner)
+    (hnone : ∀ l, (cells l).owner ≠ some t) : OwnerOK t cells op pc o := by
+  intro l u h
+  rw [hc, hsame] at h
+  refine Or.inl ⟨?_, h⟩
+  intro hu; subst hu; exact hnone l h
+
+/-- `t` acquires `x` (free before) and goes on -/
+theorem ownerOK_acquire {t : Nat} {cells : Nat → Cell} {op : Op} {pc : Nat} {o : StepOut} {x : Nat}
+    (hc : o.cells = setOwner cells x (some t)) (hn : o.next = .cont) (hh : HoldsOp op (pc + 1) x)
+    (hnone : ∀ l, (cells l).owner ≠ some t) : OwnerOK t cells op pc o := by
+  intro l u h
+  rw [hc, owner_setOwner] at h
+  split at h
+  · rename_i hl; subst hl; cases h; exact Or.inr ⟨rfl, hn, hh⟩
+  · refine Or.inl ⟨?_, h⟩
+    intro hu; subst hu; exact hnone l h
+
+/-- `t` releases `x`, the only mutex it held -/
+theorem ownerOK_release {t : Nat} {cells : Nat → Cell} {op : Op} {pc : Nat} {o : StepOut} {x : Nat}
+    (hc : o.cells = setOwner cells x none)
+    (honly : ∀ l, (cells l).owner = some t → l = x) : OwnerOK t cells op pc o := by
+  intro l u h
+  rw [hc, owner_setOwner] at h
+  split at h
+  · cases h
+  · rename_i hl
+    refine Or.inl ⟨?_, h⟩
+    intro hu; subst hu; exact hl (honly l h)
+
+theorem opStep_owner {F : Facts} (hF : F = Facts.guarded) {t : Nat} {cells : Nat → Cell}
+    {ptr : Option Ptr} {acc : RawList} {op : Op} {pc : Nat} {o : StepOut}
+    (hpc : OpPc cells t ptr op pc)
+    (hown : ∀ l, (cells l).owner = some t → HoldsOp op pc l)
+    (h : opStep F t cells ptr acc op pc = some o) : OwnerOK t cells op pc o := by
+  subst hF
+  have none_of (hf : ∀ l, ¬ HoldsOp op pc l) : ∀ l, (cells l).owner ≠ some t :=
+    fun l hl => hf l (hown l hl)
+  cases op with
+  | get l i =>
+    cases pc with
+    | zero =>
+      have hn := none_of (by intro l; simp [HoldsOp])
+      simp only [opStep, lookupStep, Facts.guarded] at h
+      split at h
+      · split at h
+        · cases h; exact ownerOK_acquire rfl rfl (by simp [HoldsOp]) hn
+        · cases h; exact ownerOK_same rfl (fun _ => rfl) hn
+      · cases h
+    | succ n =>
+      cases n with
+      | zero =>
+        have hp := hpc.2.1
+        subst hp
+        simp only [opStep, cloneStep, Facts.guarded, Bool.not_true, Bool.and_false, Bool.false_and,
+          Bool.false_eq_true, ↓reduceIte] at h
+        cases h
+        exact ownerOK_release rfl (fun l' hl' => (hown l' hl').symm)
+      | succ m => simp [OpPc] at hpc
+  | ffiGet l i =>
+    cases pc with
+    | zero =>
+      have hn := none_of (by intro l; simp [HoldsOp])
+      simp only [opStep, lookupStep, Facts.guarded] at h
+      split at h
+      · split at h
+        · cases h; exact ownerOK_acquire rfl rfl (by simp [HoldsOp]) hn
+        · cases h; exact ownerOK_same rfl (fun _ => rfl) hn
+      · cases h
+    | succ n =>
+      cases n with
+      | zero =>
+        have hp := hpc.2.1
+        subst hp
+        simp only [opStep, cloneStep, Facts.guarded, Bool.not_true, Bool.and_false, Bool.false_and,
+          Bool.false_eq_true, ↓reduceIte] at h
+        cases h
+        exact ownerOK_release rfl (fun l' hl' => (hown l' hl').symm)
+      | succ m => simp [OpPc] at hpc
+  | push l v =>
+    have hn := none_of (by intro l; simp [HoldsOp])
+    simp only [opStep] at h
+    split at h
+    · generalize (cells l).raw.push v = pr at h
+      obtain ⟨r', re⟩ := pr
+      cases h
+      exact ownerOK_same rfl (fun l' => owner_setRaw _ _ _ l') hn
+    · cases h
+  | contains l v =>
+    have hn := none_of (by intro l; simp [HoldsOp])
+    simp only [opStep] at h
+    split at h
+    · cases h; exact ownerOK_same rfl (fun _ => rfl) hn
+    · cases h
+  | swap l i j =>
+    have hn := none_of (by intro l; simp [HoldsOp])
+    simp only [opStep] at h
+    split at h
+    · cases h; exact ownerOK_same rfl (fun l' => owner_setRaw _ _ _ l') hn
+    · cases h
+  | len l =>
+    have hn := none_of (by intro l; simp [HoldsOp])
+    simp only [opStep] at h
+    split at h
+    · cases h; exact ownerOK_same rfl (fun _ => rfl) hn
+    · cases h
+  | clone l =>
+    have hn := none_of (by intro l; simp [HoldsOp])
+    simp only [opStep] at h
+    cases h
+    exact ownerOK_same rfl (fun l' => owner_rc _ _ _ l') hn
+  | drop l =>
+    have hn := none_of (by intro l; simp [HoldsOp])
+    simp only [opStep] at h
+    cases h
+    exact ownerOK_same rfl (fun l' => owner_rc _ _ _ l') hn
+  | eq a b =>
+    cases pc with
+    | zero =>
+      have hn := none_of (by intro l; simp [HoldsOp])
+      simp only [opStep] at h
+      split at h
+      · cases h; exact ownerOK_same rfl (fun _ => rfl) hn
+      · rename_i hab
+        split at h
+        · cases h; exact ownerOK_acquire rfl rfl ⟨hab, rfl⟩ hn
+        · cases h
+    | succ n =>
+      cases n with
+      | zero =>
+        simp only [opStep] at h
+        split at h
+        · cases h
+          exact ownerOK_release rfl (fun l' hl' => ((hown l' hl').2).symm)
+        · cases h
+      | succ m => simp [OpPc] at hpc
+  | concat a b =>
+    cases pc with
+    | zero =>
+      have hn := none_of (by intro l; simp [HoldsOp])
+      simp only [opStep] at h
+      split at h
+      · cases h; exact ownerOK_acquire rfl rfl (by simp [HoldsOp]) hn
+      · cases h
+    | succ n =>
+      cases n with
+      | zero =>
+        simp only [opStep] at h
+        generalize (RawList.extend {} (cells a).raw.elems) = pr at h
+        obtain ⟨acc', re⟩ := pr
+        cases h
+        exact ownerOK_release rfl (fun l' hl' => (hown l' hl').symm)
+      | succ m =>
+        cases m with
+        | zero =>
+          have hn := none_of (by intro l; simp [HoldsOp])
+          simp only [opStep] at h
+          split at h
+          · generalize (acc.extend (cells b).raw.elems) = pr at h
+            obtain ⟨acc', re⟩ := pr
+            cases h
+            exact ownerOK_same rfl (fun _ => rfl) hn
+          · cases h
+        | succ k => simp [OpPc] at hpc
+
+/-- every held mutex is held by a thread standing inside the operation that
+    took it; nobody has stopped at a stale use -/
+def Own (s : State) : Prop :=
+  (∀ l u, (s.cells l).owner = some u →
+    ∃ op rest, (s.threads u).prog = op :: rest ∧ HoldsOp op (s.threads u).pc l) ∧
+  (∀ t, (s.threads t).halted = false)
+
+theorem own_init (lists : List (List Nat)) (progs : List (List Op)) : Own (init lists progs) := by
+  refine ⟨?_, fun _ => rfl⟩
+  intro l u h
+  simp [init, initCell] at h
+
+theorem step_own {F : Facts} (hF : F = Facts.guarded) {t : Nat} {s s' : State}
+    (hinv : Inv s) (hown : Own s) (h : step F t s = some s') : Own s' := by
+  unfold step at h
+  simp only at h
+  split at h
+  · cases h
+  · rename_i hhalt
+    split at h
+    · cases h
+    · rename_i op rest hprog
+      split at h
+      · cases h
+      · rename_i o hop
+        have hpc : OpPc s.cells t (s.threads t).ptr op (s.threads t).pc := by
+          have := hinv t
+          unfold PcOK at this
+          rw [hprog] at this
+          exact this
+        have hmine : ∀ l, (s.cells l).owner = some t → HoldsOp op (s.threads t).pc l := by
+          intro l hl
+          obtain ⟨op', rest', hp', hh⟩ := hown.1 l t hl
+          rw [hprog] at hp'
+          cases hp'
+          exact hh
+        have g := opStep_good hF hpc hop
+        have w := opStep_owner hF hpc hmine hop
+        split at h
+        · rename_i hnext
+          cases h
+          refine ⟨?_, ?_⟩
+          · intro l u hl
+            rcases w l u hl with ⟨hu, hold⟩ | ⟨hu, _, hh⟩
+            · obtain ⟨op', rest', hp', hh⟩ := hown.1 l u hold
+              exact ⟨op', rest', by simpa [upd_other _ _ _ _ hu] using hp', by simpa [upd_other _ _ _ _ hu] using hh⟩
+            · subst hu
+              exact ⟨op, rest, by simp [hprog], by simpa using hh⟩
+          · intro u
+            by_cases hu : u = t
+            · subst hu; simpa using hhalt
+            · simpa [upd_other _ _ _ _ hu] using hown.2 u
+        · rename_i r hnext
+          cases h
+          refine ⟨?_, ?_⟩
+          · intro l u hl
+            rcases w l u hl with ⟨hu, hold⟩ | ⟨_, hc, _⟩
+            · obtain ⟨op', rest', hp', hh⟩ := hown.1 l u hold
+              exact ⟨op', rest', by simpa [upd_other _ _ _ _ hu] using hp', by simpa [upd_other _ _ _ _ hu] using hh⟩
+            · rw [hnext] at hc; cases hc
+          · intro u
+            by_cases hu : u = t
+            · subst hu; simpa using hhalt
+            · simpa [upd_other _ _ _ _ hu] using hown.2 u
+        · rename_i hnext
+          exact absurd hnext g.notrap
+
+theorem run_own {F : Facts} (hF : F = Facts.guarded) :
+    ∀ (sched : List Nat) (s s' : State), Inv s → Own s → run F s sched = some s' → Own s' := by
+  intro sched
+  induction sched with
+  | nil => intro s s' _ ho h; simp only [run, Option.some.injEq] at h; subst h; exact ho
+  | cons t rest ih =>
+    intro s s' hi ho h
+    simp only [run] at h
+    split at h
+    · cases h
+    · rename_i s1 hs
+      exact ih s1 s' (step_facts hF hi hs).inv (step_own hF hi ho hs) h
+
+/-! ### enabledness -/
+
+/-- the mutex the next step of `op` at `pc` must find free, if any -/
+def NeedsOp : Op → Nat → Option Nat
+  | .get l _, 0 => some l
+  | .ffiGet l _, 0 => some l
+  | .push l _, _ => some l
+  | .contains l _, _ => some l
+  | .swap l _ _, _ => some l
+  | .len l, _ => some l
+  | .eq a b, 0 => if a = b then none else some (eqFirst Facts.guarded a b)
+  | .eq a b, _ => some (eqSecond Facts.guarded a b)
+  | .concat a _, 0 => some a
+  | .concat _ _, 1 => none
+  | .concat _ b, _ => some b
+  | _, _ => none
+
+theorem opStep_enabled {F : Facts} (hF : F = Facts.guarded) {t : Nat} {cells : Nat → Cell}
+    {ptr : Option Ptr} {acc : RawList} {op : Op} {pc : Nat}
+    (hpc : OpPc cells t ptr op pc)
+    (hfree : ∀ l, NeedsOp op pc = some l → (cells l).owner = none) :
+    (opStep F t cells ptr acc op pc).isSome = true := by
+  subst hF
+  have fr : ∀ l, NeedsOp op pc = some l → isFree cells l = true :=
+    fun l hl => (isFree_iff _ _).2 (hfree l hl)
+  cases op with
+  | get l i =>
+    cases pc with
+    | zero =>
+      have := fr l rfl
+      simp only [opStep, lookupStep, this, ↓reduceIte]
+      split <;> rfl
+    | succ n =>
+      cases n with
+      | zero =>
+        have hp := hpc.2.1
+        subst hp
+        simp [opStep, cloneStep, Facts.guarded]
+      | succ m => simp [OpPc] at hpc
+  | ffiGet l i =>
+    cases pc with
+    | zero =>
+      have := fr l rfl
+      simp only [opStep, lookupStep, this, ↓reduceIte]
+      split <;> rfl
+    | succ n =>
+      cases n with
+      | zero =>
+        have hp := hpc.2.1
+        subst hp
+        simp [opStep, cloneStep, Facts.guarded]
+      | succ m => simp [OpPc] at hpc
+  | push l v => have := fr l (by simp [NeedsOp]); simp [opStep, this]
+  | contains l v => have := fr l (by simp [NeedsOp]); simp [opStep, this]
+  | swap l i j => have := fr l (by simp [NeedsOp]); simp [opStep, this]
+  | len l => have := fr l (by simp [NeedsOp]); simp [opStep, this]
+  | clone l => simp [opStep]
+  | drop l => simp [opStep]
+  | eq a b =>
+    cases pc with
+    | zero =>
+      by_cases hab : a = b
+      · simp [opStep, hab]
+      · have := fr (eqFirst Facts.guarded a b) (by simp [NeedsOp, hab])
+        simp [opStep, hab, this]
+    | succ n => have := fr (eqSecond Facts.guarded a b) (by simp [NeedsOp]); simp [opStep, this]
+  | concat a b =>
+    cases pc with
+    | zero => have := fr a rfl; simp [opStep, this]
+    | succ n =>
+      cases n with
+      | zero => simp [opStep]
+      | succ m => have := fr b (by simp [NeedsOp]); simp [opStep, this]
+
+theorem step_enabled {F : Facts} (hF : F = Facts.guarded) {t : Nat} {s : State} {op : Op}
+    {rest : List Op} (hinv : Inv s) (hown : Own s) (hprog : (s.threads t).prog = op :: rest)
+    (hfree : ∀ l, NeedsOp op (s.threads t).pc = some l → (s.cells l).owner = none) :
+    (step F t s).isSome = true := by
+  have hpc : OpPc s.cells t (s.threads t).ptr op (s.threads t).pc := by
+    have := hinv t
+    unfold PcOK at this
+    rw [hprog] at this
+    exact this
+  have he := opStep_enabled hF (acc := (s.threads t).acc) hpc hfree
+  unfold step
+  simp only [hown.2 t, Bool.false_eq_true, ↓reduceIte, hprog]
+  cases hop : opStep F t s.cells (s.threads t).ptr (s.threads t).acc op (s.threads t).pc with
+  | none => rw [hop] at he; cases he
+  | some o =>
+    simp only
+    split <;> rfl
+
+/-- the largest list index an operation mentions -/
+def Op.maxId : Op → Nat
+  | .get l _ | .ffiGet l _ | .push l _ | .contains l _ | .swap l _ _ | .len l | .clone l | .drop l => l
+  | .concat a b | .eq a b => max a b
+
+theorem needs_le_maxId (op : Op) (pc l : Nat) (h : NeedsOp op pc = some l) : l ≤ op.maxId := by
+  cases op <;> cases pc <;> simp [NeedsOp, Op.maxId, eqFirst, eqSecond, Facts.guarded] at h ⊢
+  all_goals first
+    | omega
+    | (rename_i n; cases n <;> simp [NeedsOp] at h <;> omega)
+    | (split at h <;> simp at h <;> omega)
+
+/-- if some mutex `l ≤ M` is held, some thread can move (all mutex indices the
+    programs mention are ≤ M; `==` takes the smaller index first, so a chain of
+    waiting holders climbs and must end) -/
+theorem progress_of_held {F : Facts} (hF : F = Facts.guarded) {s : State} (hinv : Inv s)
+    (hown : Own s) (M : Nat) (hM : ∀ t op, op ∈ (s.threads t).prog → op.maxId ≤ M) :
+    ∀ k l, M - l ≤ k → l ≤ M → (∃ u, (s.cells l).owner = some u) → ∃ v, (step F v s).isSome = true := by
+  intro k
+  induction k with
+  | zero =>
+    intro l hk hl ⟨u, hu⟩
+    obtain ⟨op, rest, hp, hh⟩ := hown.1 l u hu
+    by_cases hfree : ∀ l', NeedsOp op (s.threads u).pc = some l' → (s.cells l').owner = none
+    · exact ⟨u, step_enabled hF hinv hown hp hfree⟩
+    · exfalso
+      have hle := hM u op (by rw [hp]; exact List.mem_cons_self)
+      -- only `==` waits while holding, and it waits for a larger index
+      cases op <;> generalize hpc : (s.threads u).pc = pc at hh hfree <;> cases pc <;>
+        simp [HoldsOp, NeedsOp] at hh hfree
+      all_goals first
+        | (rename_i n; cases n <;> simp [HoldsOp, NeedsOp] at hh hfree)
+        | skip
+      all_goals
+        simp [eqFirst, eqSecond, Facts.guarded, Op.maxId] at hh hle
+        omega
+  | succ k ih =>
+    intro l hk hl ⟨u, hu⟩
+    obtain ⟨op, rest, hp, hh⟩ := hown.1 l u hu
+    by_cases hfree : ∀ l', NeedsOp op (s.threads u).pc = some l' → (s.cells l').owner = none
+    · exact ⟨u, step_enabled hF hinv hown hp hfree⟩
+    · have hle := hM u op (by rw [hp]; exact List.mem_cons_self)
+      obtain ⟨l2, h2⟩ := Classical.not_forall.1 hfree
+      obtain ⟨hneed, hheld⟩ := Classical.not_imp.1 h2
+      have hl2 : l2 ≤ M := Nat.le_trans (needs_le_maxId _ _ _ hneed) hle
+      have hgt : l < l2 := by
+        cases op <;> generalize hpc : (s.threads u).pc = pc at hh hneed <;> cases pc <;>
+          simp [HoldsOp, NeedsOp] at hh hneed
+        all_goals first
+          | (rename_i n; cases n <;> simp [HoldsOp, NeedsOp] at hh hneed)
+          | skip
+        all_goals
+          simp [eqFirst, eqSecond, Facts.guarded] at hh hneed
+          omega
+      have hsome : ∃ v, (s.cells l2).owner = some v := by
+        cases h : (s.cells l2).owner with
+        | none => exact absurd h hheld
+        | some v => exact ⟨v, rfl⟩
+      exact ih l2 (by omega) hl2 hsome
+
+/-- **progress**: in a reachable state, if some thread still has work, some thread can move -/
+theorem progress {F : Facts} (hF : F = Facts.guarded) {s : State} (hinv : Inv s) (hown : Own s)
+    (M : Nat) (hM : ∀ t op, op ∈ (s.threads t).prog → op.maxId ≤ M)
+    (t : Nat) (hunf : unfinished s t = true) : ∃ v, (step F v s).isSome = true := by
+  have hne : (s.threads t).prog ≠ [] := by
+    intro h; simp [unfinished, h] at hunf
+  obtain ⟨op, rest, hp⟩ := List.exists_cons_of_ne_nil hne
+  by_cases hfree : ∀ l', NeedsOp op (s.threads t).pc = some l' → (s.cells l').owner = none
+  · exact ⟨t, step_enabled hF hinv hown hp hfree⟩
+  · obtain ⟨l2, h2⟩ := Classical.not_forall.1 hfree
+    obtain ⟨hneed, hheld⟩ := Classical.not_imp.1 h2
+    have hle := hM t op (by rw [hp]; exact List.mem_cons_self)
+    have hl2 : l2 ≤ M := Nat.le_trans (needs_le_maxId _ _ _ hneed) hle
+    have hsome : ∃ v, (s.cells l2).owner = some v := by
+      cases h : (s.cells l2).owner with
+      | none => exact absurd h hheld
+      | some v => exact ⟨v, rfl⟩
+    exact progress_of_held hF hinv hown M hM (M - l2) l2 (Nat.le_refl _) hl2 hsome
+
+theorem le_foldr_max (l : List Nat) (x : Nat) (h : x ∈ l) : x ≤ l.foldr max 0 := by
+  induction l with
+  | nil => cases h
+  | cons y ys ih =>
+    simp only [List.foldr_cons]
+    rcases List.mem_cons.1 h with h' | h'
+    · subst h'; exact Nat.le_max_left _ _
+    · exact Nat.le_trans (ih h') (Nat.le_max_right _ _)
+
+/-- a bound on every list index the programs mention -/
+def maxIdOf (progs : List (List Op)) : Nat := (progs.flatten.map Op.maxId).foldr max 0
+
+theorem init_prog_mem {lists : List (List Nat)} {progs : List (List Op)} {t : Nat} {op : Op}
+    (h : op ∈ ((init lists progs).threads t).prog) : t < progs.length ∧ op ∈ progs.flatten := by
+  simp only [init] at h
+  by_cases hlt : t < progs.length
+  · have : progs.getD t [] = progs[t] := by simp [List.getD, hlt]
+    rw [this] at h
+    exact ⟨hlt, List.mem_flatten.2 ⟨_, List.getElem_mem hlt, h⟩⟩
+  · have : progs.getD t [] = [] := by
+      simp [List.getD, List.getElem?_eq_none (Nat.le_of_not_lt hlt)]
+    rw [this] at h
+    cases h
+
+/-- in every reachable state, if thread `t` still has work then some thread
+    `v` (one of the `progs.length` threads) can take a step -/
+theorem reachable_progress {F : Facts} (hF : F = Facts.guarded) (lists : List (List Nat))
+    (progs : List (List Op)) (sched : List Nat) (s' : State)
+    (hrun : run F (init lists progs) sched = some s') (t : Nat) (hunf : unfinished s' t = true) :
+    ∃ v, v < progs.length ∧ (step F v s').isSome = true := by
+  have f := run_facts hF sched _ _ (inv_init lists progs) hrun
+  have ho := run_own hF sched _ _ (inv_init lists progs) (own_init lists progs) hrun
+  have hM : ∀ u op, op ∈ (s'.threads u).prog → op.maxId ≤ maxIdOf progs := by
+    intro u op h
+    have := (init_prog_mem (f.progs u op h)).2
+    exact le_foldr_max _ _ (List.mem_map.2 ⟨op, this, rfl⟩)
+  obtain ⟨v, hv⟩ := progress hF f.inv ho (maxIdOf progs) hM t hunf
+  refine ⟨v, ?_, hv⟩
+  -- an enabled thread has a non-empty program, so it is one of the real threads
+  have hne : (s'.threads v).prog ≠ [] := by
+    intro hnil
+    unfold step at hv
+    simp [hnil] at hv
+  obtain ⟨op, rest, hp⟩ := List.exists_cons_of_ne_nil hne
+  exact (init_prog_mem (f.progs v op (by rw [hp]; exact List.mem_cons_self))).1
 
 end RotoV.ListConc
